@@ -306,7 +306,7 @@ mint_prop("C06", "Rejected or malformed requests change nothing and never crash 
     "No-panic is NOT a theorem: the model has no panic outcome after F3; panics of the Go are caught by the recover()-based monitors of mint-seq / mint-mon and of stream wire-malformed (about 5,300 structurally and byte-level mutated HTTP requests per run over 5 mint states: no panic, no state change on refusal, predicted decode class and detail text). Stream mint-crash (fault mode) applies the statement literally to requests that fail because a STORAGE call fails at each position: 29 such positions leave earlier writes in place on the unchanged tree (known findings C06/fault/*, the same defects as C07's); any other position is a VIOLATION.",
     streams=("mint-seq", "mint-mon", "wire-malformed", "mint-crash"), shards={"mint-crash": 4}, qshards={"mint-crash": 3})
 mint_prop("C07", "Mint crash consistency: a crash at any point never inflates or strands value", ["Gonuts.Props.C07", "Gonuts.Props.C01"],
-    "PROVED for the model, for EVERY event sequence (any operation, any interruption point, any number of kills, injected storage errors and requests in flight, any inputs): durability — a SPENT row, a stored signature, a keyset's index and fee, a quote's terms are never lost (durable_spent, durable_signature, durable_keyset, durable_mint_quote, durable_melt_quote); a kill changes no table and the restarted cache is a function of storage (kill_keeps_tables, restart_cache_from_storage); the unique keys of the spent/pending/signature tables hold at every point (unique_keys_always); a spent secret is refused by every later request (spent_refused_after_restart); atomicity of swap EXACTLY, for every request, world, interruption point and armed fault: a killed or faulted swap leaves one of three states — nothing, the inputs spent, the inputs spent and the signatures stored — and never a stored signature without spent inputs (swap_interrupted_states, swap_never_signs_without_spending; Lemmas/SwapCrash.lean: syntactic shape of the program + semantics of its two writes). FALSE of the code, with kernel-checked witnesses: atomicity (swap_atomic_full_false: killed between SaveProofs and SaveBlindSignatures the inputs are SPENT and nothing is restorable, swap_stranded_for_good; mint_atomic_full_false), safety (melt_safety_full_false: killed between RemovePendingProofs and SaveProofs the invoice is paid and the inputs spendable), start-up (rotate_restart_full_false: no active keyset, LoadMint panics). The complete interruption tables of the canonical swap/mint/melt/rotation (swap_table, mint_table, melt_table, rotate_table) are decide-checked TESTS of the model, compared point by point with the real mint by stream mint-crash.",
+    "PROVED for the model, for EVERY event sequence (any operation, any interruption point, any number of kills, injected storage errors and requests in flight, any inputs): durability — a SPENT row, a stored signature, a keyset's index and fee, a quote's terms are never lost (durable_spent, durable_signature, durable_keyset, durable_mint_quote, durable_melt_quote); a kill changes no table and the restarted cache is a function of storage (kill_keeps_tables, restart_cache_from_storage); the unique keys of the spent/pending/signature tables hold at every point (unique_keys_always); a spent secret is refused by every later request (spent_refused_after_restart); atomicity of swap EXACTLY, for every request, world, interruption point and armed fault: a killed or faulted swap leaves one of three states — nothing, the inputs spent, the inputs spent and the signatures stored — and never a stored signature without spent inputs (swap_interrupted_states, swap_never_signs_without_spending; Lemmas/SwapCrash.lean: syntactic shape of the program + semantics of its two writes); the same for MintTokens: a killed or faulted MintTokens leaves nothing, or only the STATE of one mint quote changed, or that quote ISSUED and the signatures stored — never a stored signature unless the quote is ISSUED in the same tables, never a change to another table (mint_interrupted_states, mint_never_signs_unless_issued, mint_touches_only_quote_and_signatures; Lemmas/WriteShape.lean: a Hoare logic over the writes of a program against a write automaton, Lemmas/MintCrash.lean: the automaton of MintTokens, its soundness for the storage semantics, the walk over the program's binds). FALSE of the code, with kernel-checked witnesses: atomicity (swap_atomic_full_false: killed between SaveProofs and SaveBlindSignatures the inputs are SPENT and nothing is restorable, swap_stranded_for_good; mint_atomic_full_false), safety (melt_safety_full_false: killed between RemovePendingProofs and SaveProofs the invoice is paid and the inputs spendable), start-up (rotate_restart_full_false: no active keyset, LoadMint panics). The complete interruption tables of the canonical swap/mint/melt/rotation (swap_table, mint_table, melt_table, rotate_table) are decide-checked TESTS of the model, compared point by point with the real mint by stream mint-crash.",
     "Stream mint-crash: every listed operation x every interruption point k x {kill+restart, storage error at call k then restart} against the real mint on real SQLite (goroutine parked for ever at the Gate = process kill; LoadMint on the same directory), followed by state check, poll, retry, restore and re-spend; the model executes the same prefix, kill and follow-up; verdicts (unsafe / lost / stranded / ok) are computed model-free from storage and the backend's ledger. 52 interruption points violate the property on the unchanged tree (known findings C07/crash/*, C07/fault/*, one signature per (mode, operation, call, verdict)); any other point, or another verdict at a listed point, is a VIOLATION. The model's kill drops continuations between calls; torn writes inside one SQLite transaction and fsync behaviour are NOT modelled (SQLite's own atomicity is trusted).",
     streams=("mint-crash", "mint-sched"), shards={"mint-sched": 8, "mint-crash": 4}, qshards={"mint-sched": 5, "mint-crash": 3})
 mint_prop("C09", "Keyset lifecycle: deterministic keys, one active keyset, old ecash stays valid", ["Gonuts.Props.C09"],
